@@ -9,7 +9,7 @@ def nontrivial(cmd, inp, impl, prev):
 
 PROP = dict(
     family="c18", session_start=None, trivial=nontrivial,
-    n=dict(quick=2500, thorough=40000),
+    n=dict(quick=2500, thorough=40000), search_rounds=1,
     exhaustive=dict(quick=False, thorough=False),
     rule="text states generated field by field from the repo's protobuf types (formatting 0-12 and beyond incl. random int32, "
          "pair modes, icons, scale types with sane/degenerate/reversed/extreme ranges, fonts 0-3 and random, sizes, padding 0-3, "
